@@ -224,6 +224,7 @@ package linux
 //vc:spec func normProto(x string) string = ite(x == "vrrp", "112", ite(x == "ipv6-icmp", "58", x))
 //vc:spec func normRel(k string, v string, w string) bool = ite(k == "-s" || k == "-d", w == v || v == w + "/32", ite(k == "-p", w == normProto(strings.ToLower(v)), ite(k == "--sport" || k == "--dport" || k == "--state" || k == "--set-mark" || k == "--log-level", true, w == v)))
 //vc:spec func specialKey(k string) bool = k == "-m" || k == "--set-xmark" || k == "--set-mark"
+//vc:ghost var markLowered string
 //vc:func normalizeIPTables
 //vc:  invariant[C05] 1 "for k, v := range pairs" @normalisedOnceIfVisited forall c string :: { pairs[c] } !specialKey(c) ==> (rangevisited[c] ==> normRel(c, old(pairs[c]), pairs[c])) && (!rangevisited[c] ==> pairs[c] == old(pairs[c])) && ((c in pairs) == old(c in pairs))
 // --set-xmark V/M (xor under a mask) is rewritten to --set-mark only without
@@ -240,6 +241,11 @@ package linux
 // touched (structural guards on the two statements)
 //vc:  assert[C05] at "v = strings.TrimLeft(v," @onlyLeadingZerosDropped arg1 == "0"
 //vc:  assert[C05] at "strings.CutSuffix(v, " @defaultUpperBoundDropped true
+// --set-mark: the value is lower-cased first; the default mask is stripped
+// from, and the hex number parsed out of, the lower-cased text (a mask written
+// in upper case is a default mask too)
+//vc:  assign after "v = strings.ToLower(v)"#2 markLowered = callresult
+//vc:  assert[C05] at "v, _ = strings.CutSuffix(v," @defaultMaskStrippedFromLowerCasedValue arg0 == markLowered
 //vc:  assert[C05] after "l := strings.Split(v" @stateListSplitAtEveryComma true
 //vc:  assert[C05] at "sort.Strings(l)" @wholeStateListSorted true
 //vc:  assert[C05] after "v = strings.Join(l" @sortedStatesJoined true
